@@ -83,6 +83,13 @@ fn main() {
                 let v = args.get(i).cloned().unwrap_or_else(|| usage());
                 let (a, b) = v.split_once('/').unwrap_or_else(|| usage());
                 worker = Some((a.parse().unwrap_or_else(|_| usage()), b.parse().unwrap_or_else(|_| usage())));
+                // an isolated worker may not take the machine down with it: a case whose memory grows without bound (a parse loop that
+                // makes no progress) then ends in a failed allocation, which the supervisor records as a violation with the case as
+                // replay, instead of the kernel killing whichever process is largest (3 GiB: forty times the 64 MiB allowance plus the harness)
+                unsafe {
+                    let lim = libc::rlimit { rlim_cur: 3 << 30, rlim_max: 3 << 30 };
+                    libc::setrlimit(libc::RLIMIT_AS, &lim);
+                }
             }
             "--worker-dir" => {
                 i += 1;
